@@ -17,6 +17,8 @@
 //   Q                   ThreadPool::enqueue by this thread          J   this worker starts the next queued job
 // Steps are numbered in creation order.  Direct oracle as in c04.cpp (#VIOL), plus: stuck run
 // (deadlock), step limit, an event on a destroyed step, a step alive at the end.
+#include <fcntl.h>
+#include <signal.h>
 #include <sys/personality.h>
 #include <unistd.h>
 
@@ -340,6 +342,26 @@ static Outcome run_det(const Cfg& cfg, const Strs& in) {
     return R;
 }
 
+// ------------------------------------------------------------------ watchdog
+// A sort that does not return (broken classification, lost notification, ...) is a
+// failure of the property ("terminates").  alarm() cuts the operation off with a `#VIOL`
+// line; once that happened (marker file named by $C04_WATCHDOG) the limits become short so
+// that a tree on which every sort hangs does not stall the check.
+static const char* g_wd_what = "";
+static void wd_fire(int) {
+    const char* a = "#VIOL sort did not terminate within the time limit [";
+    (void)!write(1, a, strlen(a)); (void)!write(1, g_wd_what, strlen(g_wd_what)); (void)!write(1, "]\n", 2);
+    if (const char* m = getenv("C04_WATCHDOG")) { int fd = open(m, O_CREAT | O_WRONLY, 0644); if (fd >= 0) close(fd); }
+    _exit(91);
+}
+static void wd_arm(unsigned secs, const char* what) {
+    if (const char* m = getenv("C04_WATCHDOG")) if (access(m, F_OK) == 0) secs = secs > 100 ? 60 : 3;
+    g_wd_what = what;
+    signal(SIGALRM, wd_fire);
+    alarm(secs);
+}
+static void wd_off() { alarm(0); }
+
 typedef Outcome (*Runner)(const Cfg&, const Strs&);
 static Runner find_runner(const std::string& p) {
     if (p == "t2s8i4") return &run_det<P<2, 8, 4> >;
@@ -379,7 +401,9 @@ int main(int argc, char** argv) {
             vh::answer("ok");
         } else if (t[0] == "dgo" && t.size() == 1) {
             if (!runner) { vh::answer("bad-op"); continue; }
+            wd_arm(60, g_cur_sched.c_str());
             Outcome o = runner(cfg, input);
+            wd_off();
             for (auto& v : o.viol) vh::viol(v);
             std::string so, sl;
             for (size_t i = 0; i < o.order.size(); ++i) { if (i) so += ','; so += hexs(o.order[i]); }
